@@ -573,11 +573,26 @@ func runC11(e *env) {
 		for id := range byID {
 			inPartial[id] = e.rng.Bool()
 		}
+		hasPlural := false
+		for _, m := range msgs {
+			hasPlural = hasPlural || (m.Plural && !m.has("empty"))
+		}
 		for _, kind := range kinds {
 			kdir := filepath.Join(dir, kind)
 			os.MkdirAll(kdir, 0o755)
 			var cats []*c11Cat
-			for _, loc := range locales {
+			locs := locales
+			if hasPlural && (kind == "identity" || kind == "reversed") {
+				// catalogues whose Plural-Forms header disagrees with the library's rule for their name:
+				// all of them for the hand-written bundles, one (in rotation) for a generated bundle
+				locs = append([]c11Locale{}, locales...)
+				if bi < len(corpus) {
+					locs = append(locs, c11Disagree...)
+				} else {
+					locs = append(locs, c11Disagree[bi%len(c11Disagree)])
+				}
+			}
+			for _, loc := range locs {
 				translated := func(m *c11Msg) bool {
 					if m.has("empty") {
 						return false
@@ -592,7 +607,7 @@ func runC11(e *env) {
 				var ents []string
 				nents := 0
 				pf.Header = map[string][]string{"Language": {loc.Name}, "Content-Type": {"text/plain; charset=UTF-8"}}
-				if e.rng.Bool() {
+				if e.rng.Bool() || c11IsDisagree(loc.Name) {
 					pf.Header["Plural-Forms"] = []string{loc.Header}
 				}
 				for _, pe := range entries {
@@ -697,8 +712,8 @@ func runC11(e *env) {
 			}
 			for _, c := range cats {
 				ask := c.loc.Name
-				if e.rng.Chance(25) {
-					ask = map[string]string{"ja": "ja_JP", "en": "en_US", "ru": "ru_RU", "fr": "fr_CA", "cs": "cs_CZ"}[c.loc.Name]
+				if regional, ok := map[string]string{"ja": "ja_JP", "en": "en_US", "ru": "ru_RU", "fr": "fr_CA", "cs": "cs_CZ"}[c.loc.Name]; ok && e.rng.Chance(25) {
+					ask = regional
 				}
 				bun := prov.Bundle(ask)
 				if bun == nil {
@@ -762,7 +777,7 @@ func runC11(e *env) {
 						}
 						c11Fail(e, hx.Violation{Kind: "oracle", What: what, Case: crp, Expected: hx.Q(x.out) + " error=" + hx.Q(x.err), Observed: hx.Q(o.out) + " error=" + hx.Q(o.err)}, key)
 					}
-					if c.kind == "identity" && c.loc.Name == "en" && !o.same(B.base[di]) {
+					if c.kind == "identity" && c.loc.Rule == 1 && !o.same(B.base[di]) {
 						c11Fail(e, hx.Violation{Kind: "oracle", What: "the identity translation does not render byte for byte what rendering without a catalogue does", Case: crp,
 							Expected: hx.Q(B.base[di].out) + " error=" + hx.Q(B.base[di].err), Observed: hx.Q(o.out) + " error=" + hx.Q(o.err)}, attr(c.keys))
 					}
@@ -889,7 +904,7 @@ func runC11(e *env) {
 					c11Fail(e, hx.Violation{Kind: "oracle", What: "Go and JavaScript agree on the catalogue-free equivalent and disagree with the " + c.kind + " catalogue", Case: crp,
 						Expected: "go: " + hx.Q(gx.out) + " error=" + hx.Q(gx.err), Observed: "js: " + hx.Q(j.out) + " error=" + hx.Q(j.err)}, key)
 				}
-				if c.kind == "identity" && c.loc.Name == "en" && !agree(jb, j) {
+				if c.kind == "identity" && c.loc.Rule == 1 && !agree(jb, j) {
 					c11Fail(e, hx.Violation{Kind: "oracle", What: "JavaScript: the identity translation does not render what the code generated without a catalogue renders", Case: crp,
 						Expected: hx.Q(jb.out) + " error=" + hx.Q(jb.err), Observed: hx.Q(j.out) + " error=" + hx.Q(j.err)}, key)
 				}
